@@ -94,6 +94,9 @@ pub fn run_scenario(world: &transport::Shared, prop: &str, lines: &[String]) -> 
     // what went over the wire is part of a case's identity
     let reqs: String = trace.iter().filter(|l| l.starts_with("REQ ")).map(|l| l.as_str()).collect::<Vec<_>>().join("|");
     sig.push_str(&format!("#{:x}", fnv(&reqs)));
+    // … and so is the broker-side set-up (logs, faults) the scenario ran against
+    let setup: String = lines.iter().filter(|l| !l.starts_with("OP ")).map(|l| l.as_str()).collect::<Vec<_>>().join("|");
+    sig.push_str(&format!("#{:x}", fnv(&setup)));
     let mut mm = Vec::new();
     let mut jj = Vec::new();
     for v in verdict {
